@@ -678,7 +678,7 @@ func (o *oracle) checkLeafProvenance(st *Store, e *ref.Entry, fail func(string, 
 		fail("leaf-not-submitted", "leaf %d is not an entry of the workload", e.Index)
 		return
 	}
-	if !bytes.Equal(it.Entry.PreCertificate, e.PreCert) {
+	if !it.acceptsPreCert(e.PreCert) {
 		fail("leaf-precert", "leaf %d carries a different pre_certificate than submitted", e.Index)
 	}
 	if len(it.Entry.Issuers) != len(e.Fingerprints) {
@@ -868,7 +868,7 @@ func (o *oracle) checkAckNow(in *Instance, s *Submission, when string) bool {
 	}
 	want := s.Item.Entry
 	if e.Index != s.Index || e.Timestamp != s.Time || e.IsPrecert != want.IsPrecert || !bytes.Equal(e.Cert, want.Certificate) ||
-		e.IssuerKeyHash != want.IssuerKeyHash || !bytes.Equal(e.PreCert, want.PreCertificate) {
+		e.IssuerKeyHash != want.IssuerKeyHash || !(bytes.Equal(e.PreCert, want.PreCertificate) || o.itemsByKey[s.Item.Key] != nil && o.itemsByKey[s.Item.Key].acceptsPreCert(e.PreCert)) {
 		o.v("C02", "ack-wrong-leaf", "sub %d (item %d) acknowledged idx=%d ts=%d but the stored leaf is idx=%d ts=%d precert=%v certlen=%d (%s)",
 			s.ID, s.Item.ID, s.Index, s.Time, e.Index, e.Timestamp, e.IsPrecert, len(e.Cert), when)
 		if s.Source == "pool" || s.Source == "cache" {
